@@ -1133,6 +1133,43 @@ func regCorpus(c *Ctx) {
 	}
 }
 
+// regLinkedFiles: every file linked into the binary (generated code of every syntax and API level: proto3 optional
+// fields with their synthetic oneofs, groups, map entries, nested extensions, services), registered alone in a fresh
+// local registry: each of its declarations must be found by its full name, as that very descriptor.
+func regLinkedFiles(c *Ctx) {
+	var fds []protoreflect.FileDescriptor
+	protoregistry.GlobalFiles.RangeFiles(func(fd protoreflect.FileDescriptor) bool { fds = append(fds, fd); return true })
+	sort.Slice(fds, func(i, j int) bool { return fds[i].Path() < fds[j].Path() })
+	for _, fd := range fds {
+		r := new(protoregistry.Files)
+		if err := r.RegisterFile(fd); err != nil {
+			c.PropFail("C33", "a linked file is rejected by an empty registry: "+regErrClass(err), fd.Path())
+			continue
+		}
+		c.Stat("linked_file")
+		if got, err := r.FindFileByPath(fd.Path()); err != nil || got != fd {
+			c.PropFail("C33", "FindFileByPath does not return the registered file", fd.Path())
+		}
+		n := 0
+		for _, d := range regWalkFile(fd) {
+			n++
+			got, err := r.FindDescriptorByName(d.FullName())
+			if err != nil {
+				c.PropFail("C33", "declaration of a registered file not found by full name ("+regKind(d)+")", fd.Path(), string(d.FullName()))
+			} else if got != d {
+				c.PropFail("C33", "FindDescriptorByName returns another descriptor ("+regKind(d)+")", fd.Path(), string(d.FullName()))
+			}
+			if od, ok := d.(protoreflect.OneofDescriptor); ok && od.IsSynthetic() {
+				c.Stat("linked_synthetic_oneof")
+			}
+		}
+		if r.NumFiles() != 1 || r.NumFilesByPackage(fd.Package()) != 1 {
+			c.PropFail("C33", "counts after registering one file", fd.Path())
+		}
+		c.StatN("linked_decls", n)
+	}
+}
+
 func famReg(c *Ctx) {
 	defer func() {
 		if e := recover(); e != nil {
@@ -1140,6 +1177,7 @@ func famReg(c *Ctx) {
 		}
 	}()
 	regCorpus(c)
+	regLinkedFiles(c)
 	for h := 0; h < c.N; h++ {
 		var pool []*regFile
 		for i, n := 0, 3+c.Intn(4); i < n; i++ {
